@@ -65,6 +65,9 @@ def run(ctx):
     obs4_6(rep, fmt_fns)
     rep.rule("OBS-8", "no metric reads the field that names a sibling metric; no two metrics read the same field", floor=15)
     obs8(rep, fmt_fns)
+    rep.rule("OBS-9", "a label's value is read from the field the label is named after (a `parent_*` label is not filled "
+                      "from a `grandmaster_*` field)", floor=3)
+    obs9(rep, fmt_fns)
     obs5(rep, prog)
 
 
@@ -540,3 +543,43 @@ def obs5(rep, prog):
         rep.violation("OBS-5", fr.key, "content-length = len(body)",
                       "Content-Length is computed from %s but the body written is %s" % (
                           sorted(map(str, len_locals)) or "no len()", sorted(map(str, written)) or "nothing"), where=fr.loc())
+
+
+_GENERIC_WORDS = {"identity", "number", "ds", "id", "clock", "the", "of", "list", "value"}
+
+
+def obs9(rep, fmt_fns):
+    """OBS-9: `("label_name", <value>)` tuples: the field chain the value is read from and the label name must share a
+    distinguishing word (words such as identity/number/clock are common to many fields and do not count). A chain whose
+    first field has NO distinguishing word in common with the label while the label has one (parent_..) is a value taken
+    from a sibling field."""
+    for key, (u, h) in sorted(fmt_fns.items()):
+        body = hir.fn_body(h)
+        for c in hir.walk(body):
+            if c.get("k") != "tup" or len(c.get("es", [])) != 2:
+                continue
+            a0 = hir.strip_wrappers(c["es"][0])
+            name = (a0.get("v") or {}).get("str") if a0.get("k") == "lit" else None
+            if not name:
+                continue
+            chain = []
+            for y in hir.walk(c["es"][1]):
+                if y.get("k") == "field":
+                    chain.append(y["name"])
+            if not chain:
+                continue
+            chain = list(reversed(chain))        # outermost data-set field first
+            lw = set(name.split("_")) - _GENERIC_WORDS
+            fw_all = set()
+            for f in chain:
+                fw_all |= set(f.split("_"))
+            first = next((f for f in chain if set(f.split("_")) - _GENERIC_WORDS and not f.endswith("_ds")), chain[0])
+            fw = set(first.split("_")) - _GENERIC_WORDS
+            construct = "label %s source" % name
+            if lw and fw and not (lw & fw_all):
+                rep.violation("OBS-9", key, construct,
+                              "label `%s` is filled from `%s`: the field it is read from (%s) names something else - the served "
+                              "label does not describe the object it claims to" % (name, ".".join(chain), first),
+                              where=hir.where(c))
+            else:
+                rep.ok("OBS-9", key, construct, detail=".".join(chain), where=hir.where(c), nontrivial=False)
